@@ -563,6 +563,9 @@ func (m *Machine) RunPath(entry string, prefix []decision) (res PathResult) {
 					res.Status = "engine"
 				}
 				res.Msg = r.msg
+				if debugWhere && r.kind == abUnsupported {
+					res.Msg += " @ " + m.whereAmI()
+				}
 			default:
 				res.Status = "engine"
 				res.Msg = fmt.Sprintf("%v\n%s", r, debug.Stack())
